@@ -290,6 +290,8 @@ def fixed_cases(n):
              # long salts that differ only in their last / first / middle character
              ("checkout_recommendations_ranker_2026q3_a", "checkout_recommendations_ranker_2026q3_b"), ("x" * 300 + "1", "x" * 300 + "2"),
              ("a" + "y" * 100, "b" + "y" * 100), ("m" * 40 + "1" + "m" * 40, "m" * 40 + "2" + "m" * 40)]
+    # different salts whose digests agree in 32 bits (a short token derived from the salt cannot tell them apart)
+    pairs += neighbours.digest_prefix_twins()
     fams = FAMILIES
     for i, (s1, s2) in enumerate(pairs):
         yield {"second": "recompile", "family": fams[i % len(fams)], "offset": [0, 10 ** 6, 2 ** 60][i % 3], "weights": ["1", "1", "2"],
